@@ -1791,3 +1791,123 @@ func returnImplies(h *ssa.Function, ret bool, m CondMatcher, orig func(ssa.Value
 	}
 	return true
 }
+
+// ---------------------------------------------------------------------------
+// Success-wrappers (extract-step tolerant success gates)
+
+// OKWrapper reports whether h is a function of the analysed module with an
+// error result such that every `return ..., nil` of h lies behind the success
+// edge of a call to one of set (directly or through another such wrapper):
+// "h succeeded" implies "the step succeeded".
+func OKWrapper(h *ssa.Function, set FuncSet, depth int) bool {
+	if h == nil || len(h.Blocks) == 0 || h.Pkg == nil || !strings.HasPrefix(h.Pkg.Pkg.Path(), Module) || ErrIndex(h) < 0 {
+		return false
+	}
+	calls := CallsToOK(h, set, depth)
+	if len(calls) == 0 {
+		return false
+	}
+	g := NewGates()
+	for _, c := range calls {
+		g.AddEdges(OKEdges(c), "")
+	}
+	if g.Empty() {
+		return false
+	}
+	nilRets, _ := NilReturns(h)
+	if len(nilRets) == 0 {
+		return false
+	}
+	for _, r := range nilRets {
+		if ok, _ := MustPass(r, g); !ok {
+			return false
+		}
+	}
+	return true
+}
+
+// CallsToOK lists the calls in fn to a function of set plus the calls to
+// success-wrappers of set (bounded depth). The success edge of any of them
+// implies that the step in set succeeded.
+func CallsToOK(fn *ssa.Function, set FuncSet, depth int) []ssa.CallInstruction {
+	out := CallsTo(fn, set)
+	if depth <= 0 {
+		return out
+	}
+	for _, b := range fn.Blocks {
+		for _, in := range b.Instrs {
+			call, ok := in.(*ssa.Call)
+			if !ok {
+				continue
+			}
+			h := call.Call.StaticCallee()
+			if h == nil || h == fn || set.Has(CalleeOf(call.Common())) {
+				continue
+			}
+			if OKWrapper(h, set, depth-1) {
+				out = append(out, call)
+			}
+		}
+	}
+	return out
+}
+
+// ---------------------------------------------------------------------------
+// Calls seen through pass-through helpers
+
+// Via is a call of a target function as seen from the analysed function: the
+// call site in that function (the target call itself, or the call of a helper
+// that makes it) and the target's arguments expressed as values of the
+// analysed function (nil where the helper computes the argument itself).
+type Via struct {
+	Site   ssa.CallInstruction
+	Args   []ssa.Value
+	Helper *ssa.Function // nil for a direct call
+}
+
+// CallsVia lists the calls of set made by fn directly or through statically
+// called functions of the same package (bounded depth), mapping the helper's
+// parameters back to fn's arguments.
+func CallsVia(fn *ssa.Function, set FuncSet, depth int) []Via {
+	var out []Via
+	if fn == nil {
+		return nil
+	}
+	for _, b := range fn.Blocks {
+		for _, in := range b.Instrs {
+			ci, ok := in.(ssa.CallInstruction)
+			if !ok {
+				continue
+			}
+			if set.Has(CalleeOf(ci.Common())) {
+				out = append(out, Via{Site: ci, Args: ci.Common().Args})
+				continue
+			}
+			if depth <= 0 {
+				continue
+			}
+			if _, isCall := in.(*ssa.Call); !isCall {
+				continue
+			}
+			h := ci.Common().StaticCallee()
+			if h == nil || h == fn || h.Pkg != fn.Pkg || len(h.Blocks) == 0 {
+				continue
+			}
+			for _, inner := range CallsVia(h, set, depth-1) {
+				args := make([]ssa.Value, len(inner.Args))
+				for i, a := range inner.Args {
+					if a == nil {
+						continue
+					}
+					for pi, p := range h.Params {
+						if (a == ssa.Value(p) || IsVar(a, p)) && pi < len(ci.Common().Args) {
+							args[i] = ci.Common().Args[pi]
+						}
+					}
+				}
+				out = append(out, Via{Site: ci, Args: args, Helper: h})
+			}
+		}
+	}
+	return out
+}
